@@ -4,7 +4,7 @@ import runner_props
 PROP = "C05"
 LEAN_MODULES = ["PamsProps.C05", "PamsProps.SimE2E", "PamsProps.SimE2E"]
 NAMESPACES = ["Pams.C05", "Pams.C05", "Pams.SimDemo"]
-DRIVERS = ["Runner", "Pure", "Sim"]
+DRIVERS = ["Runner", "Pure", "Sim", "PyRun"]
 TRUSTED = [
     "scheduler model treats markets, agents, user events and random draws as oracles (tape recorded from the real run through public extension points: simulator_class, registered agent/market/event classes, prng subclass, Logger subclass)",
     "user-written agents/events are assumed not to reach into private state of sessions/markets (the built-in TradingHaltRule, which does, is modelled: its flag switches are part of the tape)",
@@ -58,7 +58,8 @@ def run(ctx, model_available=True):
                     res["diffs"].append({"channel": "ledger.fold", "agents_differing": bad[:5], "model": [model[i] for i in bad[:3]],
                                          "impl": [exp[i] for i in bad[:3]], "input": inp})
             res["comparisons"]["ledger_folds_compared_bitwise"] = n
-    return res
+    import py_checks
+    return py_checks.merge(res, ctx, ["ledger"], n_each=60, model_available=model_available)
 
 
 def search(ctx, res):
